@@ -463,7 +463,7 @@ Proof.
   apply ro_bind; [apply ro_open_key_ring|].
   intros [res h]. cbn [fst snd]. destruct res; cbn [ro_prog]; try exact I.
   destruct (current_key h) as [cs| |]; [|apply IH|apply IH].
-  destruct (key_with_seqnum (h_data h) cs); [apply IH|exact I].
+  destruct (key_with_seqnum (h_data h) cs) as [kc|]; [destruct (N.eqb (k_state kc) KSW_DESTROYED); apply IH|exact I].
 Qed.
 
 Lemma ro_list_keys : ro_prog list_keys.
